@@ -1,6 +1,6 @@
 """C01 — every executed iteration is counted exactly once, with its true outcome."""
 ID = "C01"
-PROPS = ["F1Verif.Props.C01", "F1Verif.Props.C17", "F1Verif.Props.FactsC01", "F1Verif.Props.RefineC17", "F1Verif.Props.RefineC17Run", "F1Verif.Props.RefineC06T", "F1Verif.Props.RefineC19R", "F1Verif.Props.RefineC05R"]
+PROPS = ["F1Verif.Props.C01", "F1Verif.Props.C17", "F1Verif.Props.FactsC01", "F1Verif.Props.RefineC17", "F1Verif.Props.RefineC17Run", "F1Verif.Props.RefineC06T", "F1Verif.Props.RefineC19R", "F1Verif.Props.RefineC05R", "F1Verif.Props.RefineC05U"]
 RULE = ("engine B: scripted schedules on the real progress.Stats through the progress.collect yield point — records of "
         "either outcome executed while a Snapshot/Total is parked between draining the period accumulators and merging "
         "them (every collect of a script may carry injections at its successful and at its failed yield point); "
@@ -21,6 +21,7 @@ def corpus():
         "progress.seq s9007199254740993,s1,T",
         "progress.stress 8 60000 0 0 rising",              # C04k: every record a new maximum / minimum: no recorder may get stuck publishing it
         "progress.stress 16 30000 3 0 rising",
+        "run prop=C01 mode=file dur=3000 conc=1 file=c:2000:3000000/100ms body=20 cancel=130",     # C01m: interrupted while a tick's millions of superseded requests are still being reported dropped, one by one
         "run prop=C01 mode=file dur=3000 conc=1 file=c:200:1/100ms;c:500:1/100ms body=350 failevery=2",   # C01k: an iteration that outlives its stage keeps its own handle and outcome
         "run prop=C01 mode=file dur=3000 conc=2 file=c:250:2/100ms;c:600:2/100ms body=300,40 failevery=3",
         "progress.seq s0,s0,f0,f0,f0,S1000,T",      # C08k: failures that took 0 ns are failures
